@@ -250,7 +250,13 @@ def judge_detail(case, out):
     head = 0               # completions handed to the application (get_next_cqe returned Some)
     delivered = []         # what the application READ: (ud, res)
     held = None            # number of the completion the kept reference designates
+    relp = False           # the entry the last get_next_cqe returned still occupies its slot (released by the NEXT call)
     asleep = False
+
+    def room(early=False):
+        """free completion slots as the kernel sees them; `early` = as a kernel would see them if get_next_cqe had released
+        the slot of the entry it returned before the caller read it (then the held entry gets overwritten: reported at `rr`)"""
+        return CE - (len(posted) - (head - (0 if early or not relp else 1)))
     for op, t in zip(ops, toks):
         o = op[0]
         if t == "panic":
@@ -309,19 +315,24 @@ def judge_detail(case, out):
             if cancelled or res >= 2 ** 31:
                 failed.add(seq)
             done.add(seq)
-            direct = (not ovf) and (len(posted) - head < CE)
+            direct = (not ovf) and room() > 0
+            if not direct and (not ovf) and room(True) > 0 and t.endswith(":d"):
+                direct = True
             generated[seq] = (ud, res)
             (posted if direct else ovf).append(seq)
             if t != "x%d=%d:%d:%s" % (seq, ud, res, "d" if direct else "o"):
                 return ("x", "wrong completion generated", "completion %s generated, the contract owes x%d=%d:%d:%s" % (t, seq, ud, res, "d" if direct else "o"))
         elif o == "o":
-            n = 0
-            while n < int(op[1]) and ovf and len(posted) - head < CE:
+            n = min(int(op[1]), len(ovf), max(0, room()))
+            n_early = min(int(op[1]), len(ovf), max(0, room(True)))
+            if t == "o%d" % n_early:
+                n = n_early
+            for _ in range(n):
                 posted.append(ovf.pop(0))
-                n += 1
             if t != "o%d" % n:
                 return ("o", "overflow flush", "kernel moved %s overflowed completions into the ring, expected %d (free slots seen through the shared head)" % (t, n))
         elif o == "r":
+            relp = False
             if head < len(posted):
                 want = generated[posted[head]]
                 if t == "cn":
@@ -330,6 +341,7 @@ def judge_detail(case, out):
                     return ("r", "wrong completion", "wrong completion %s, expected c%d:%d (the oldest unreaped one)" % ((t,) + want))
                 delivered.append(want)
                 head += 1
+                relp = True
             elif t != "cn":
                 return ("r", "completion invented", "completion %s returned although every posted completion was reaped" % t)
         elif o == "rb":
@@ -337,12 +349,14 @@ def judge_detail(case, out):
                 if t != "bw":
                     return ("rb", "borrow", "second reference handed out")
                 continue
+            relp = False
             if head < len(posted):
                 idx = ((cc + head) % CE) << csh
                 if t != "h%d" % idx:
                     return ("rb", "wrong reference", "get_next_cqe returned %s, the oldest unreaped completion is in entry %d" % (t, idx))
                 held = head
                 head += 1
+                relp = True
             elif t != "cn":
                 return ("rb", "completion invented", "reference %s returned although every posted completion was reaped" % t)
         elif o == "rr":
@@ -355,8 +369,8 @@ def judge_detail(case, out):
             held = None
             if t != "c%d:%d" % want:
                 return ("rr", "held-reference-overwritten",
-                        "the reference get_next_cqe returned for completion #%d (user_data %d, res %d) reads %s: get_next_cqe released the "
-                        "entry to the kernel (head advanced) before the caller read it, the kernel has put a later completion there — this "
+                        "the reference get_next_cqe returned for completion #%d (user_data %d, res %d) reads %s: the entry's slot was given "
+                        "back to the kernel (head advanced) before the caller read it, the kernel has put a later completion there — this "
                         "operation's completion is lost and the later one will be reaped twice" % ((k,) + want + (t,)))
             delivered.append(want)
         elif o == "w":
